@@ -8,7 +8,7 @@ HOOKS = ['-DURCU_VERIF_RCU_QS_ACTIVE_ATTEMPTS=2', '-DURCU_VERIF_URCU_WAIT_ATTEMP
 def gp(name, flavor, threads, R, tso=0, nested=0, unreg=0, membarrier=1, faults=0, live=False, safe=True, desc='', wit=None, unwind=4,
        live_R=None, timeout=1500, futex_enosys=0, handlers=None, dyn=0, reg_slots=None):
     regs = [('reg', i + 1) for i, t in enumerate(threads) if t == 'reader' or (reg_slots and (i + 1) in reg_slots)]
-    extra = {'membarrier': membarrier, 'futex_enosys': futex_enosys, 'mem_gb': 20}
+    extra = {'membarrier': membarrier, 'futex_enosys': futex_enosys, 'mem_gb': 12}
     if handlers:
         extra['handlers'] = [dict(fn='sig_handler', slot=k) for k in handlers]
     return conc(name, 'c01_gp.c', threads, R, cflags=['-DFLAVOR=%d' % FL[flavor], '-DNESTED=%d' % nested, '-DUNREG=%d' % unreg, '-DDYN=%d' % dyn] + HOOKS,
